@@ -60,7 +60,7 @@ func main() {
 		if b := os.Getenv("VCHECK_BIN"); b != "" {
 			self = b
 		}
-		r := &work.Runner{VerifDir: dir, Bin: self, RaceBin: os.Getenv("VCHECK_RACE_BIN"), Prop: prop, Seed: seed, W: w, KF: kf}
+		r := &work.Runner{VerifDir: dir, Bin: self, RaceBin: os.Getenv("VCHECK_RACE_BIN"), CoverBin: os.Getenv("VCHECK_COVER_BIN"), Prop: prop, Seed: seed, W: w, KF: kf}
 		if os.Args[1] == "replay" {
 			os.Exit(r.ReplayFile(os.Args[3]))
 		}
